@@ -195,7 +195,9 @@ def run(data, prop, manual_ops, overrun_ops):
             end = op == 'end'
             o = s.feed(wire.data(st.sid, b'x' * n, end_stream=end, pad=pad))
             r.step('data', st.sid, 'len', n, 'pad', pad, 'fc', fc, 'win', w, 'end', end, o.brief())
-            if fc > m.conn or fc > st.win:
+            # an empty frame consumes no window and so cannot overrun one, even a window that a
+            # SETTINGS_INITIAL_WINDOW_SIZE decrease has made negative (RFC 7540 s6.9.1/6.9.2; finding F30)
+            if fc > 0 and (fc > m.conn or fc > st.win):
                 overrun_attempt = True
                 goaways = [f for f in o.frames if f.type == wire.GOAWAY]
                 if o.ok:
